@@ -14,6 +14,18 @@ def norm(s):
     return ORD.sub("", s).replace("ruzstd::io_nostd::", "io::").replace("std::io::", "io::").replace("ruzstd::io_std::", "io::")
 
 
+_LE_L = re.compile(r"(?<![\w.])(-?\d+) <= ")
+_LE_R = re.compile(r" <= (-?\d+)(?![\w.])")
+
+
+def litcmp(s):
+    """comparison key for rendered conditions: integer comparisons against a literal in one spelling
+    (`c <= x` -> `c-1 < x`, `x <= c` -> `x < c+1`: the same predicate over the integers).  Applied to both the
+    reviewed and the current condition, only for comparing them."""
+    s = _LE_L.sub(lambda m: "%d < " % (int(m.group(1)) - 1), s)
+    return _LE_R.sub(lambda m: " < %d" % (int(m.group(1)) + 1), s)
+
+
 def top_fns(crate, fns):
     """HIR bodies of the given function set (closures are nested inside their parents)."""
     out = []
@@ -244,11 +256,11 @@ def compare_loop_exits(ctx, rule, current, table):
     for k, rev in sorted(table.items()):
         if k not in cur:
             continue            # loop removed: nothing to hang in
-        have = list(cur[k]["exits"]) + ["while " + c for c in cur[k]["conds"]]
+        have = [litcmp(x) for x in list(cur[k]["exits"]) + ["while " + c for c in cur[k]["conds"]]]
         missing = []
         for e in rev.get("exits", []):
-            if e in have:
-                have.remove(e)
+            if litcmp(e) in have:
+                have.remove(litcmp(e))
             else:
                 missing.append(e)
         it = cur[k]["it"]
